@@ -1050,6 +1050,7 @@ pub fn replay(w: &Value) -> Vec<Finding> {
         let verif = PathBuf::from(std::env::var("VERIF_DIR").unwrap_or_else(|_| "/verif".into()));
         return match dbg_binary(&verif) {
             Ok(bin) => match dbg_run(&bin, &kind, depth) {
+                Some(false) if DBG_REPEAT_KINDS.iter().any(|k| k.0 == kind) => vec![dbg_repeat_finding(&kind, depth)],
                 Some(false) => vec![dbg_finding(&kind, depth)],
                 _ => vec![],
             },
@@ -1108,6 +1109,24 @@ fn dbg_run(bin: &Path, kind: &str, depth: usize) -> Option<bool> {
     None
 }
 
+/// repetition templates of the unoptimised-build stage: the count is a number of repeated items, not a nesting depth
+const DBG_REPEAT_KINDS: [(&str, &str); 4] = [
+    ("eof", "Document::load_mem, file with that many %%EOF comment lines in front of its real tail"),
+    ("cmt", "Document::load_mem, that many comment lines in front of an object"),
+    ("par", "Document::load_mem, literal string object with that many nested parentheses"),
+    ("cpar", "Content::decode, literal string operand with that many nested parentheses"),
+];
+const DBG_COUNTS: [usize; 3] = [1_000, 20_000, 200_000];
+
+fn dbg_repeat_finding(kind: &str, count: usize) -> Finding {
+    let what = DBG_REPEAT_KINDS.iter().find(|k| k.0 == kind).map(|k| k.1).unwrap_or(kind);
+    Finding {
+        signature: format!("stack_overflow|unoptimised build, 2 MiB thread|{}|count<={}", kind, DBG_COUNTS[DBG_COUNTS.len() - 1]),
+        what: format!("unoptimised (dev profile) build: {} (count {}) overflows the 2 MiB stack of a spawned thread and aborts the process", what, count),
+        witness: json!({"kind":"dbg-nesting","case":{"dbg_nesting":{"entry":kind,"depth":count}}}),
+    }
+}
+
 fn dbg_finding(kind: &str, depth: usize) -> Finding {
     let bucket = if depth <= 32 { "depth<=32" } else { "depth 33..=256" };
     let what = DBG_KINDS.iter().find(|k| k.0 == kind).map(|k| k.1).unwrap_or(kind);
@@ -1144,6 +1163,25 @@ fn debug_stack_stage(cfg: &RunCfg, out: &mut ShardOut, extra: &mut Map<String, V
         report.insert(kind.to_string(), json!({"deepest_template_that_returned": max_ok, "first_that_overflowed": first_bad}));
         if let Some(d) = first_bad {
             out.finding(dbg_finding(kind, d));
+        }
+    }
+    for (kind, _) in DBG_REPEAT_KINDS {
+        let mut max_ok = 0usize;
+        let mut first_bad = None;
+        for count in DBG_COUNTS {
+            out.evaluations += 1;
+            match dbg_run(&bin, kind, count) {
+                Some(true) => max_ok = count,
+                Some(false) => {
+                    first_bad = Some(count);
+                    break;
+                }
+                None => break,
+            }
+        }
+        report.insert(kind.to_string(), json!({"largest_count_that_returned": max_ok, "first_that_overflowed": first_bad}));
+        if let Some(c) = first_bad {
+            out.finding(dbg_repeat_finding(kind, c));
         }
     }
     extra.insert("unoptimised_build_stage".into(), Value::Object(report));
